@@ -310,7 +310,7 @@ fn update_fields(u: &OrderUpdate) -> (u8, OrderId, u64, u64, Option<Side>) {
     }
 }
 
-type LevelContent = (u64, Vec<OrderType<()>>, u64, u64, usize);
+pub type LevelContent = (u64, Vec<OrderType<()>>, u64, u64, usize);
 
 pub fn level_content(l: &PriceLevel) -> LevelContent {
     let mut orders: Vec<OrderType<()>> = l.iter_orders().iter().map(|a| **a).collect();
